@@ -40,7 +40,9 @@ THEOREMS = ["C11_sart_returns_iterate_under_stopping_rule", "C11_csart_returns_i
             "C11_sart_sweep_scale_covariant", "C11_sart_inversion_scale_covariant", "C11_sart_sweep_respects_equal_iterates",
             "C11_csart_beta_zero_is_sart", "C11_sart_exact_start_makes_two_sweeps", "C11_stop_replay_is_the_model_rule",
             "C11_exact_certificates_give_exact_minimisers", "C11_lstsq_wrapper_returns_tikhonov_minimiser",
-            "C11_nnls_wrapper_error_and_norm_sign"]
+            "C11_nnls_wrapper_error_and_norm_sign",
+            "C11_sart_sweep_order_invariant", "C11_sart_inversion_order_invariant", "C11_round53_error_bounds",
+            "C11_float_stop_decision_is_exact_outside_rounding_margin"]
 
 E1 = float(np.exp(-1))          # the constant the code uses for a missing initial guess
 
@@ -241,7 +243,8 @@ def gen_sart_case(rng, mode, big, constrained):
     relax = 1.0 if rng.random() < 0.25 else dyadic(rng, 0.1, 1.9, 4)
     tol = rng.choice([1.0E-4, 1.0E-4, 2.0 ** -6, 2.0 ** -10, 0.0, 0.5, 8.0])
     maxit = rng.choice([0, 1, 2, 3, -1] if large else ([0, 1, 2, 3, 4, 6] + ([9, 14] if big else []) + [-1]))
-    if big and not large and tol in (2.0 ** -6, 0.5, 8.0) and rng.random() < 0.25:
+    # (with conv_tol = 2^-6 a run can take a hundred sweeps; exact arithmetic over so many sweeps is affordable for small systems only)
+    if big and not large and (tol in (0.5, 8.0) or (tol == 2.0 ** -6 and m * n <= 12)) and rng.random() < 0.25:
         maxit = 250                      # the documented default (left out of the call in the 'defaults' style)
         tags.add("default_max_iterations")
     case = {"kind": "csart" if constrained else "sart", "mode": mode, "m": m, "n": n, "W": W, "b": b, "guess": g,
@@ -454,7 +457,7 @@ def run(ctx):
         "(eps = 2^-30 x rounding-error scale of the gradient / objective); no theorem about the solvers' algorithms",
     ]
     ctx.rebuild()
-    ctx.proofs("Properties.C11", THEOREMS, extra_modules=("Model.C11_Check", "Proofs.C11_Check", "Model.C11_Forms", "Model.C11_Round", "Proofs.C11_Round"))
+    ctx.proofs("Properties.C11", THEOREMS, extra_modules=("Model.C11_Check", "Proofs.C11_Check", "Model.C11_Forms", "Model.C11_Round", "Proofs.C11_Round", "Proofs.C11_Order"))
     ctx.log("proofs checked")
 
     import cherab
@@ -817,6 +820,16 @@ def run(ctx):
                 viol.append(("c11:nnls:nonfinite", "invert_regularised_nnls returned a non-finite solution or norm",
                              meta_of(case, {"impl_x": np.asarray(x).tolist(), "impl_rnorm": float(rn)})))
                 continue
+            if not case["single"]:
+                attributable, info = S.nnls_scipy_attributable(case, x, float(rn))
+                if attributable:
+                    case["scipy_nnls_defect"] = True
+                    viol.append(("c11:nnls:scipy-nnls-non-minimiser", "invert_regularised_nnls returned a point that is not the minimiser "
+                                 "(or a norm inconsistent with it); scipy.optimize.nnls called directly on the correctly normalised "
+                                 "system returns the same point, on the unnormalised system it returns the true minimiser",
+                                 meta_of(case, info)))
+                    count("tags", "scipy_nnls_non_minimiser")
+                    continue
             case["impl"] = {"status": "ok", "x": np.asarray(x, dtype=float).tolist(), "rnorm": float(rn)}
             e = "check_nnls_out %s %d %s %s %s %s %s %s" % (single, n, Wn, bn, l_alpha, Lopt,
                                                          qlist(np.asarray(x, dtype=float).tolist()), qlit(float(rn)))
@@ -835,8 +848,36 @@ def run(ctx):
         else:
             x = out
             if not finite(x):
-                viol.append(("c11:svd:nonfinite", "invert_svd returned a non-finite solution", meta_of(case)))
+                key, text = "c11:svd:nonfinite", "invert_svd returned a non-finite solution"
+                if fm.get("W") in ("F32", "U8", "FBool") or fm.get("b") == "F32":
+                    with warnings.catch_warnings():
+                        warnings.simplefilter("ignore")
+                        x64 = svd_mod.invert_svd(W.copy(), b.copy())
+                    if finite(x64):
+                        key = "c11:svd:single-precision-overflow"
+                        text = ("invert_svd returned a non-finite solution for a float32 / uint8 / bool system whose minimiser is "
+                                "finite (and is returned for the same values as float64): pinv and the product stay in float32")
+                viol.append((key, text, meta_of(case, {"impl_x": np.asarray(x, dtype=float).tolist()})))
+                count("tags", "svd_nonfinite_output")
                 continue
+            if case["single"] and "scaled" in case["tags"]:
+                # float32 range: the solution or intermediate products may under/overflow in single precision although every
+                # input is representable; such an output is routed to the known finding when the float64 twin is fine
+                def ne_ratio(xv):
+                    ld = np.longdouble
+                    Wl, xl = W.astype(ld), np.asarray(xv, dtype=ld)
+                    gq = np.abs(Wl.T @ (Wl @ xl - b.astype(ld))).max(initial=0)
+                    sc = np.abs(Wl).sum(axis=0).max(initial=0) * (np.abs(Wl) @ np.abs(xl) + np.abs(b.astype(ld))).max(initial=0)
+                    return float(gq / sc) if sc > 0 else 0.0
+                with warnings.catch_warnings():
+                    warnings.simplefilter("ignore")
+                    x64 = svd_mod.invert_svd(W.copy(), b.copy())
+                if ne_ratio(x) > 2.0 ** -18 and finite(x64) and ne_ratio(x64) < 2.0 ** -27:
+                    viol.append(("c11:svd:single-precision-overflow", "invert_svd returned a point that is not a minimiser even at single "
+                                 "precision for a float32 / uint8 / bool system (under/overflow in float32; the same values as float64 "
+                                 "are solved correctly)", meta_of(case, {"impl_x": np.asarray(x, dtype=float).tolist()})))
+                    count("tags", "svd_float32_range_loss")
+                    continue
             case["impl"] = {"status": "ok", "x": np.asarray(x, dtype=float).tolist()}
             e = "check_svd_out %s %s %s %s" % (single, Wn, bn, qlist(np.asarray(x, dtype=float).tolist()))
         entries.append((e, dict(case, tie="certificate")))
@@ -922,9 +963,13 @@ def run(ctx):
     fails = S.search(inv, nnls_mod, lstsq_mod, svd_mod, sart_cases, lsq_cases, rng, quick, seeds=diff_cases)
     n_search = fails.pop("n_checked")
     sf = fails["failures"]
-    ctx.obligation("executable property on the implementation (%d checks)" % n_search, "search", not sf and not viol, str(sf[:3]))
-    for key, text, rep in viol[:5]:
-        ctx.violation(key, text, rep, found=True)
+    ctx.obligation("executable property on the implementation (%d checks)" % n_search, "search",
+                   not sf and not [v for v in viol if v[0] not in ctx.known], str(sf[:3]))
+    shown = {}
+    for key, text, rep in viol:
+        shown[key] = shown.get(key, 0) + 1
+        if shown[key] <= 2 and len(shown) <= 6:
+            ctx.violation(key, text, rep, found=True)
     for f in sf[:6]:
         ctx.violation("c11:%s:%s" % (f["kind"], f["claim"][:48]), f["claim"], f, found=True)
     rejected = [c for c in diff_cases if c.get("tie") == "forms" and c.get("exception")]
@@ -932,7 +977,7 @@ def run(ctx):
         ctx.violation("c11:%s:rejects-accepted-input" % case["kind"],
                       "%s raised %s for an input whose type / layout it is expected to accept (forms %s)"
                       % (case["kind"], case["exception"], case.get("forms")), meta_of(case), found=True)
-    if diff_cases and not sf and not viol and not rejected:
+    if diff_cases and not sf and not [v for v in viol if v[0] not in ctx.known] and not rejected:
         for case in diff_cases[:3]:
             ctx.violation("c11-diff:%s:%s" % (case["kind"], case.get("tie")),
                           "model and implementation disagree for a %s case (%s tie); the executable property found no failing input"
@@ -970,6 +1015,15 @@ def run(ctx):
                       "certificates": "eps = 2^-30 x rounding-error scale (max_j sum_i |C_ij| x max_i (|C||x| + |d|)_i for the gradient, "
                                       "|(|C||x| + |d|)|^2 for the objective); invert_svd: 2^-26 (explicit pseudo-inverse: eps x cond(W), "
                                       "generated cond(W) <= ~1e5)"},
+        "known_finding_2": "invert_regularised_nnls can return a non-minimiser with an inconsistent norm because scipy.optimize.nnls (1.17.1) "
+                           "does so for the normalised system the wrapper hands over (W=[[0,0,1,0,0,1,0,1,0]], b=[27], alpha=1: x[1]=0.105 "
+                           "instead of 0; key c11:nnls:scipy-nnls-non-minimiser, replayed from corpus/C11 on every run). An output is routed "
+                           "to this key only when scipy called directly on the independently built correct system reproduces it; any other "
+                           "non-minimiser remains a violation",
+        "known_finding": "float32 inputs are inside the quantifier (any geometry matrix the functions accept). invert_svd never promotes "
+                         "its input: a float32-representable system whose solution / intermediate products leave the float32 range "
+                         "returns nan/inf or a non-minimiser (key c11:svd:single-precision-overflow, replayed from corpus/C11 on every "
+                         "run and generated among the scaled cases); within the float32 range such inputs are certified at single precision",
         "partial": ["float32 (for invert_svd also uint8 / bool) inputs are processed in single precision by the implementation: "
                     "their outputs are certified at single precision only",
                     "NNLS / LSQ / SVD: the third-party solvers are not modelled; each output is certified (validation of outputs) "
